@@ -308,7 +308,7 @@ func (r *run) doShutdown(baseG, baseFd int) endInfo {
 	ei.Notes = r.notes
 	ei.SaltDup = r.saltDup
 	r.rec.mu.Lock()
-	ei.Flood = r.rec.flood
+	ei.Flood = r.rec.flood + r.floodEmit
 	r.rec.mu.Unlock()
 	if r.promReg != nil {
 		ei.Prom = r.promCompare()
